@@ -164,6 +164,7 @@ def q_c11_connect_finished(bodies):
             if ab or len(fin) != 1 or fin[0] != ["NS", "PEER", "(CE_Origin_Connect REASON)", want_res]:
                 problems.append(("every other way a dial ends (success, NotFound / InternalServerError declines, connect, sync and close errors) is handed to on_sync_finished(ns, peer, Connect(reason), result), which finishes the sync state",
                                  "sat", tag + " abort=%s finished=%s" % (ab, [f[:3] for f in fin])))
+    problems.sort(key=lambda p: p[1] == "inconclusive")  # a confirmed problem names the check
     return dict(name=name, property="C11", verdict=_verdict(problems), detail="ways a dial can end: %d; feasible paths=%d; problems: %s" % (len(cases), ncases, problems[:3] or "none"),
                 functions=[body.name], queries=nq, cases=ncases, witness="c11live",
                 check_message=(problems[0][0] if problems else "every way a dial ends finishes or frees the dialer's sync state"))
@@ -259,6 +260,7 @@ def q_c11_accept_finished(bodies):
                 ok = (r == rterm) if label == "ok" else r.startswith("(C_Err ")
             if not ok:
                 problems.append(("a finished or failed accepted session is handed to on_sync_finished(namespace, peer, Accept, result), which finishes the sync state", "sat", tag + " finished=%s" % [f[:4] for f in fin]))
+    problems.sort(key=lambda p: p[1] == "inconclusive")  # a confirmed problem names the check
     return dict(name=name, property="C11", verdict=_verdict(problems), detail="ways an accepted session can end: %d; feasible paths=%d; problems: %s" % (len(cases), ncases, problems[:3] or "none"),
                 functions=[body.name, "net::AcceptError::{peer,namespace}"], queries=nq, cases=ncases, witness="c11live",
                 check_message=(problems[0][0] if problems else "every way an accepted session ends finishes the acceptor's sync state"))
@@ -342,6 +344,7 @@ def q_c11_on_sync_finished(bodies):
             v, _ = solve(smt.script(goal))
             if v != "unsat":
                 problems.append(("a refused report (resync flag) leads to exactly one follow-up dial when the session finishes, successful or not; no flag, no dial", v, tag + " dials=%d" % len(dials)))
+    problems.sort(key=lambda p: p[1] == "inconclusive")  # a confirmed problem names the check
     return dict(name=name, property="C11", verdict=_verdict(problems), detail="feasible paths=%d; problems: %s" % (ncases, problems[:3] or "none"),
                 functions=[body.name], queries=nq, cases=ncases, witness="c11live",
                 check_message=(problems[0][0] if problems else "on_sync_finished finishes the state once and re-dials iff a report was refused"))
@@ -422,6 +425,7 @@ def q_c11_dial_and_accept(bodies):
         a = rec.get("args", [])
         if ret != "OUTCOME" or len(a) != 1 or a[0] != ("MYID", "NS", "PEER"):
             problems.append(("an incoming request is answered by the sync state: accept_request(own id, &namespace, peer), unchanged", "sat", "ret=%s args=%s" % (ret[:40], a)))
+    problems.sort(key=lambda p: p[1] == "inconclusive")  # a confirmed problem names the check
     return dict(name=name, property="C11", verdict=_verdict(problems), detail="feasible paths=%d; problems: %s" % (ncases, problems[:3] or "none"),
                 functions=[sw[0].name, ac[0].name], queries=nq, cases=ncases, witness="c11live",
                 check_message=(problems[0][0] if problems else "dial and accept decisions are the sync state's"))
